@@ -1197,6 +1197,9 @@ func (x *explorer) explorePair(pr pairT) {
 			}
 			rec(0)
 		}
+		if len(pr.plan) == 2 && pr.plan[0] == "s" && pr.plan[1] == "f" && pr.con.Type.NumOut() == 1 && pr.con.Type.Out(0).Kind() == reflect.Bool {
+			x.epsilonBoundary(pr, base)
+		}
 		return
 	}
 	// container receiver
